@@ -129,13 +129,13 @@ class Spec:
                 er, ep = se3.pose_err(T, G)
                 obs["claimed_rot_excess"] = max(0.0, er - a.rot_tolerance)
                 obs["claimed_pos_excess"] = max(0.0, ep - a.pos_tolerance - a.rot_tolerance * float(np.linalg.norm(G[:3, 3])))
-                obs["returned_is_state"] = poe.mod2pi_equal(th, np.asarray(a._theta, float).reshape(-1), 1e-9)[1]
+                obs["returned_is_state"] = poe.mod2pi_equal(th, armlib.joint_state(a), 1e-9)[1]
                 if not free:
                     obs["limit_excess"] = float(max(0.0, (th - m.hi).max(), (m.lo - th).max()))
                 obs["goal"] = G
             if goal == "unreachable":
                 obs["unreachable_claimed"] = ok
-            m.th = np.asarray(a._theta, float).reshape(-1).copy()      # environment answer
+            m.th = armlib.joint_state(a).copy()      # environment answer
             st.loose = bool(ok and free)
             st.unclamped = bool(free)
             return st, obs
@@ -150,7 +150,7 @@ class Spec:
             m.base = B.copy()
             obs = {}
             if stationary:
-                m.th = np.asarray(a._theta, float).reshape(-1).copy()  # solver answer
+                m.th = armlib.joint_state(a).copy()  # solver answer
             else:
                 m.th = m.clamp(m.th)
             st.loose = False
@@ -222,7 +222,7 @@ class Spec:
                 flag("limit_excess", obs["limit_excess"], 1e-12)
         if obs.get("unreachable_claimed"):
             bad.append({"clause": "unreachable_claimed", "observed": True})
-        tha = np.asarray(a._theta, float).reshape(-1)
+        tha = armlib.joint_state(a)
         ok, d = poe.mod2pi_equal(tha, m.th, 1e-9)
         flag("theta_state", d, 1e-9)
         s = max(1.0, float(np.abs(m.base[:3, 3]).max()))
